@@ -65,6 +65,42 @@ theorem C15_pointwise (a b : List Tok) (h : specC15 a b = true) :
       | zero => simpa using h.1
       | succ j => simpa using hp j (by simpa using ha) (by simpa using hb)
 
+/-! ### the same statements for the relation with externally supplied case folding (what the check evaluates) -/
+
+theorem C15F_non_code_unchanged (x y : Tok × Str) (h : caseEqF x y = true) (hnc : x.1.cls ≠ 3) : x.1 = y.1 := by
+  simp only [caseEqF, Bool.and_eq_true, beq_iff_eq, Bool.or_eq_true, Bool.not_eq_true'] at h
+  obtain ⟨hc, hr⟩ := h
+  rcases hr with e | ⟨⟨c, _⟩, _⟩
+  · obtain ⟨⟨c1, r1⟩, f1⟩ := x; obtain ⟨⟨c2, r2⟩, f2⟩ := y; simp_all
+  · exact absurd c hnc
+
+theorem C15F_quoted_unchanged (x y : Tok × Str) (h : caseEqF x y = true) (hq : quoted x.1.raw = true) : x.1 = y.1 := by
+  simp only [caseEqF, Bool.and_eq_true, beq_iff_eq, Bool.or_eq_true, Bool.not_eq_true'] at h
+  obtain ⟨hc, hr⟩ := h
+  rcases hr with e | ⟨⟨_, q⟩, _⟩
+  · obtain ⟨⟨c1, r1⟩, f1⟩ := x; obtain ⟨⟨c2, r2⟩, f2⟩ := y; simp_all
+  · rw [hq] at q; cases q
+
+theorem C15F_pointwise (a b : List (Tok × Str)) (h : specC15F a b = true) :
+    a.length = b.length ∧ ∀ i (ha : i < a.length) (hb : i < b.length), caseEqF a[i] b[i] = true := by
+  induction a generalizing b with
+  | nil => cases b <;> simp_all [specC15F]
+  | cons x xs ih =>
+    cases b with
+    | nil => simp [specC15F] at h
+    | cons y ys =>
+      simp only [specC15F, Bool.and_eq_true] at h
+      obtain ⟨hl, hp⟩ := ih ys h.2
+      refine ⟨by simp [hl], ?_⟩
+      intro i ha hb
+      cases i with
+      | zero => simpa using h.1
+      | succ j => simpa using hp j (by simpa using ha) (by simpa using hb)
+
+/-- with the ASCII/Latin-1 folding of the model the two relations coincide -/
+theorem C15F_agrees (x y : Tok) : caseEqF (x, lower x.raw) (y, lower y.raw) = caseEq x y := by
+  simp [caseEqF, caseEq]
+
 /-! Non-vacuity -/
 example : specC15 [⟨3, [115, 69]⟩, ⟨0, [32]⟩, ⟨3, [39, 65, 39]⟩] [⟨3, [83, 69]⟩, ⟨0, [32]⟩, ⟨3, [39, 65, 39]⟩] = true := by decide
 example : specC15 [⟨3, [39, 65, 39]⟩] [⟨3, [39, 97, 39]⟩] = false := by decide
